@@ -658,6 +658,8 @@ class Interp:
 
     def note_array_store(self, st, ptr, v):
         ab = self._arr_base(st, ptr)
+        if ab is not None and st.loadcache:
+            st.loadcache = {k: x for k, x in st.loadcache.items() if k[1] != ab[0]}
         if ab is None or not (v[0] == 'adt' and v[1] == OPTION and v[2] == 1):
             return
         T, at = ab
